@@ -11,7 +11,16 @@
 
 package inmem
 
-//@ pred wfStorage(ts) := ts != nil && ts.root != nil && rtWf(ts.root)
+// entriesDecode(t): every entry is a valid encoding of the message type its key names
+//@ pred entriesDecode(t) := forall k String :: rtHas(t, k) ==>
+//@   |    (hasPrefix(k, "nodecreds/") ==> wfMsg("types.NodeCredentials", rtBytes(t, k)))
+//@   | && (hasPrefix(k, "nodeinfo/") ==> wfMsg("types.NodeInformation", rtBytes(t, k)))
+//@   | && (hasPrefix(k, "roots/") ==> wfMsg("types.RootCertificates", rtBytes(t, k)))
+//@   | && (hasPrefix(k, "serverledactivationtokens/") ==> wfMsg("types.ServerLedActivationToken", rtBytes(t, k)))
+//@ pred wfStorage(ts) := ts != nil && ts.root != nil && rtWf(ts.root) && entriesDecode(ts.root)
+// kindOK(sub, m): the sub path is the one of m's message type
+//@ pred kindOK(sub, m) := (dynIs(m, "types.NodeCredentials") && sub == "nodecreds") || (dynIs(m, "types.NodeInformation") && sub == "nodeinfo")
+//@   | || (dynIs(m, "types.RootCertificates") && sub == "roots") || (dynIs(m, "types.ServerLedActivationToken") && sub == "serverledactivationtokens")
 //@ pred sameView(t) := forall k String :: rtHas(t, k) == old(rtHas(t, k)) && (rtHas(t, k) ==> rtBytes(t, k) == old(rtBytes(t, k)))
 //@ pred sameViewBut(t, p) := forall k String :: k != p ==> rtHas(t, k) == old(rtHas(t, k)) && (rtHas(t, k) ==> rtBytes(t, k) == old(rtBytes(t, k)))
 
@@ -37,7 +46,9 @@ package inmem
 //@   let t = ts.root
 //@   let p = subPath + "/" + id
 //@   requires[wf] wfStorage(ts)
+//@   requires[kind] kindOK(subPath, msg)
 //@   nopanic[C19]
+//@   ensures[C19,* nocancel] neverCancelled(ctx) ==> !isCtxErr(err)
 //@   ensures[C19,* stored] err == nil ==> id != "" && subPath != "" && rtHas(t, p) && encodes(rtBytes(t, p), msg)
 //@   ensures[C19,* others] sameViewBut(t, p)
 //@   ensures[C19,* failed] err != nil ==> sameView(t)
@@ -49,8 +60,12 @@ package inmem
 //@   let p = subPath + "/" + id
 //@   requires[wf] wfStorage(ts)
 //@   nopanic[C19]
+//@   ensures[C19,* nocancel] neverCancelled(ctx) ==> !isCtxErr(err)
 //@   ensures[C19,* found] err == nil ==> rtHas(t, p) && decodedFrom(result, rtBytes(t, p))
 //@   ensures[C19,* absent] id != "" && subPath != "" && !rtHas(t, p) ==> err != nil
+//@   ensures[C19,* present] neverCancelled(ctx) && id != "" && !IsNil(result) && kindOK(subPath, result) && rtHas(t, p) ==> err == nil
+// (a cancelled context is reported as the context's error; anything else about an absent entry is the library's not-found error)
+//@   ensures[C19,* notfound] id != "" && subPath != "" && !IsNil(result) && !rtHas(t, p) && !isCtxErr(err) ==> isNotFound(err)
 //@   ensures[C19,* readonly] sameView(t) && wfStorage(ts)
 //@   modifies fields(result)
 
@@ -59,6 +74,7 @@ package inmem
 //@   let p = subPath + "/" + id
 //@   requires[wf] wfStorage(ts)
 //@   nopanic[C19]
+//@   ensures[C19,* nocancel] neverCancelled(ctx) ==> !isCtxErr(err)
 //@   ensures[C19,* removed] err == nil ==> !rtHas(t, p)
 //@   ensures[C19,* others] sameViewBut(t, p)
 //@   ensures[C19,* failed] err != nil ==> sameView(t)
@@ -97,6 +113,7 @@ package inmem
 //@   let t = ts.root
 //@   requires[wf] wfStorage(ts)
 //@   nopanic[C19]
+//@   ensures[C19,* nocancel] neverCancelled(ctx) ==> !isCtxErr(err)
 //@   ensures[C19 refused] IsNil(msg) || !known(msg) ==> err != nil
 //@   ensures[C19 stored] err == nil ==> rtHas(t, pathFor(msg)) && encodes(rtBytes(t, pathFor(msg)), msg) && idFor(msg) != ""
 //@   ensures[C19 others] err == nil ==> sameViewBut(t, pathFor(msg))
@@ -108,9 +125,11 @@ package inmem
 //@   let t = ts.root
 //@   requires[wf] wfStorage(ts)
 //@   nopanic[C19]
+//@   ensures[C19,* nocancel] neverCancelled(ctx) ==> !isCtxErr(err)
 //@   ensures[C19 refused] IsNil(msg) || !known(msg) ==> err != nil
 //@   ensures[C19 found] err == nil ==> rtHas(t, pathFor(msg)) && decodedFrom(msg, rtBytes(t, pathFor(msg)))
-//@   ensures[C19 absent] !IsNil(msg) && known(msg) && old(idFor(msg)) != "" && !rtHas(t, old(pathFor(msg))) ==> err != nil
+//@   ensures[C19 present] neverCancelled(ctx) && !IsNil(msg) && known(msg) && old(idFor(msg)) != "" && rtHas(t, old(pathFor(msg))) ==> err == nil
+//@   ensures[C19 absent] !IsNil(msg) && known(msg) && old(idFor(msg)) != "" && !rtHas(t, old(pathFor(msg))) ==> err != nil && (isNotFound(err) || isCtxErr(err))
 //@   ensures[C19 readonly] sameView(t) && wfStorage(ts)
 //@   modifies fields(msg)
 
@@ -118,9 +137,33 @@ package inmem
 //@   let t = ts.root
 //@   requires[wf] wfStorage(ts)
 //@   nopanic[C19]
+//@   ensures[C19,* nocancel] neverCancelled(ctx) ==> !isCtxErr(err)
 //@   ensures[C19 refused] IsNil(msg) || !known(msg) ==> err != nil
 //@   ensures[C19 removed] err == nil ==> !rtHas(t, pathFor(msg))
 //@   ensures[C19 others] err == nil ==> sameViewBut(t, pathFor(msg))
 //@   ensures[C19 failed] err != nil ==> sameView(t)
 //@   ensures[C19 wf] wfStorage(ts)
+//@   modifies tree(ts.root)
+
+// ---------------------------------------------------------------- lemmas (ghost code in zz_verif_lemmas.go)
+//
+// lemmaStoreLoad: a load after a store of the same type and id returns the stored message.
+//@ func storage/inmem.lemmaStoreLoad
+//@   requires[wf] wfStorage(ts) && !IsNil(a) && !IsNil(b) && sameDynType(a, b) && known(a) && idFor(a) == idFor(b)
+//@   ensures[C19 latest] serr == nil && lerr == nil ==> exists mc String :: encodes(mc, a) && decodedFrom(b, mc)
+//@   ensures[C19 latestok] neverCancelled(ctx) && serr == nil ==> lerr == nil
+//@   modifies tree(ts.root), fields(b)
+
+// lemmaTypesApart: storing or removing a message of one type leaves every entry of the other types as it was.
+//@ func storage/inmem.lemmaTypesApart
+//@   let t = ts.root
+//@   requires[wf] wfStorage(ts)
+//@   ensures[C19 apartNI] dynIs(a, "types.NodeInformation") ==> forall id String :: rtHas(t, "nodecreds/" + id) == old(rtHas(t, "nodecreds/" + id))
+//@   |   && rtHas(t, "roots/" + id) == old(rtHas(t, "roots/" + id)) && rtHas(t, "serverledactivationtokens/" + id) == old(rtHas(t, "serverledactivationtokens/" + id))
+//@   ensures[C19 apartNC] dynIs(a, "types.NodeCredentials") ==> forall id String :: rtHas(t, "nodeinfo/" + id) == old(rtHas(t, "nodeinfo/" + id))
+//@   |   && rtHas(t, "roots/" + id) == old(rtHas(t, "roots/" + id)) && rtHas(t, "serverledactivationtokens/" + id) == old(rtHas(t, "serverledactivationtokens/" + id))
+//@   ensures[C19 apartRoots] dynIs(a, "types.RootCertificates") ==> forall id String :: rtHas(t, "nodeinfo/" + id) == old(rtHas(t, "nodeinfo/" + id))
+//@   |   && rtHas(t, "nodecreds/" + id) == old(rtHas(t, "nodecreds/" + id)) && rtHas(t, "serverledactivationtokens/" + id) == old(rtHas(t, "serverledactivationtokens/" + id))
+//@   ensures[C19 apartToken] dynIs(a, "types.ServerLedActivationToken") ==> forall id String :: rtHas(t, "nodeinfo/" + id) == old(rtHas(t, "nodeinfo/" + id))
+//@   |   && rtHas(t, "nodecreds/" + id) == old(rtHas(t, "nodecreds/" + id)) && rtHas(t, "roots/" + id) == old(rtHas(t, "roots/" + id))
 //@   modifies tree(ts.root)
